@@ -453,8 +453,9 @@ rounding points in half-units of the working precision (currency + 2 decimals):
 `totalW d = sumW·(1 + kd + kc) + kd + kc` (kd, kc document discounts / charges). -/
 
 /-- (1) a line of the class `AdjLine` (priced in the document currency, no breakdown; each
-line discount / charge is a non-zero percentage of the line sum of at most 100 %, or a fixed amount
-with at most currency + 2 decimals; no rate × quantity charges): the line total is within
+line discount / charge is a non-zero percentage of at most 100 % of the line sum or of an explicit
+base with at most currency + 2 decimals, or a fixed amount with at most currency + 2 decimals; no
+rate × quantity charges): the line total is within
 `lineW l` half-units of the working precision of the exact rational line total -/
 theorem adj_line_error (cur : String) (c : ℕ) (rates : List XRate) (l l' : Line) (hs : AdjLine c l)
     (h : calcLine exactOps cur c rates .precise l = .ok l') :
@@ -476,8 +477,9 @@ theorem presented_sum_adj_within_one_unit (d : Doc) (out : Out) (t : Totals) (hr
   exact_mod_cast Nat.le_of_lt_succ hn
 
 /-- (1) lifted to the presented total: class `DocA` (precise rule, at least one line, lines of the
-class `AdjLine`, document discounts and charges percentages of the sum of at most 100 %), no
-included tax, `totalW d < 100`: the presented total is less than one minor unit from the exact
+class `AdjLine`, document discounts and charges of the class `DocAdjOk`: percentages of at most
+100 % of the sum or of an explicit base, or fixed amounts, bases and fixed amounts with at most
+currency + 2 decimals), no included tax, `totalW d < 100`: the presented total is less than one minor unit from the exact
 total -/
 theorem presented_total_adj_within_one_unit (d : Doc) (out : Out) (t : Totals) (hd : DocA d)
     (hinc : d.includes = none) (hn : totalW d < 100)
@@ -491,14 +493,14 @@ theorem presented_total_adj_within_one_unit (d : Doc) (out : Out) (t : Totals) (
   refine within_unit d.c p.total2 _ (totalW d : ℚ) ?_ hb
   exact_mod_cast Nat.le_of_lt_succ hn
 
-/-- one line 3 × 10.005 with a 12.5 % discount, a fixed discount of 0.333 and a 2.5 % charge, one
-line 1.2 × 2.222 with a fixed charge of 1.25; 10 % document discount, 2 % document charge -/
+/-- one line 3 × 10.005 with a 12.5 % discount and a charge of 5 % of an explicit base of 20.00,
+one line 1.2 × 2.222 with a fixed charge of 1.25; a fixed document discount of 0.50 (carrying 21 %
+VAT) and a 2 % document charge -/
 def adjDoc : Doc :=
   { cur := "EUR", c := 2, rule := .precise, includes := none,
     lines := [{ qty := ⟨3, 0⟩, item := some { price := some ⟨10005, 3⟩, cur := "", sub := 2, alts := [] },
-                discounts := [{ percent := some ⟨⟨125, 3⟩⟩, base := none, amount := ⟨0, 0⟩, rate := none, quantity := none },
-                              { percent := none, base := none, amount := ⟨333, 3⟩, rate := none, quantity := none }],
-                charges := [{ percent := some ⟨⟨25, 3⟩⟩, base := none, amount := ⟨0, 0⟩, rate := none, quantity := none }],
+                discounts := [{ percent := some ⟨⟨125, 3⟩⟩, base := none, amount := ⟨0, 0⟩, rate := none, quantity := none }],
+                charges := [{ percent := some ⟨⟨5, 2⟩⟩, base := some ⟨2000, 2⟩, amount := ⟨0, 0⟩, rate := none, quantity := none }],
                 breakdown := [],
                 taxes := [{ cat := "VAT", country := "", key := "standard", percent := some ⟨⟨21, 2⟩⟩,
                             surcharge := none, ext := "", retained := false }] },
@@ -508,7 +510,9 @@ def adjDoc : Doc :=
                 breakdown := [],
                 taxes := [{ cat := "VAT", country := "", key := "reduced", percent := some ⟨⟨105, 3⟩⟩,
                             surcharge := none, ext := "", retained := false }] }],
-    discounts := [{ percent := some ⟨⟨10, 2⟩⟩, base := none, amount := ⟨0, 0⟩, taxes := [] }],
+    discounts := [{ percent := none, base := none, amount := ⟨50, 2⟩,
+                    taxes := [{ cat := "VAT", country := "", key := "standard", percent := some ⟨⟨21, 2⟩⟩,
+                                surcharge := none, ext := "", retained := false }] }],
     charges := [{ percent := some ⟨⟨2, 2⟩⟩, base := none, amount := ⟨0, 0⟩, taxes := [] }],
     rates := [], rounding := none, hasPayment := false, advances := [], dues := [] }
 
@@ -519,36 +523,36 @@ theorem adjDoc_lines : ∀ l ∈ adjDoc.lines, AdjLine adjDoc.c l := by
   · refine ⟨_, _, rfl, rfl, rfl, rfl, ?_, ?_⟩
     · intro x hx
       simp only [List.mem_cons, List.mem_nil_iff, or_false] at hx
-      rcases hx with rfl | rfl
-      · exact ⟨rfl, Or.inl ⟨_, rfl, rfl, rfl, by norm_num [Amount.toRat, pow10]⟩⟩
-      · exact ⟨rfl, Or.inr ⟨rfl, by decide⟩⟩
+      subst hx
+      exact ⟨rfl, Or.inl ⟨_, rfl, rfl, by norm_num [Amount.toRat, pow10], Or.inl rfl⟩⟩
     · intro x hx
       simp only [List.mem_cons, List.mem_nil_iff, or_false] at hx
       subst hx
-      exact ⟨rfl, Or.inl ⟨_, rfl, rfl, rfl, by norm_num [Amount.toRat, pow10]⟩⟩
+      exact ⟨rfl, Or.inl ⟨_, rfl, rfl, by norm_num [Amount.toRat, pow10], Or.inr ⟨_, rfl, by decide⟩⟩⟩
   · refine ⟨_, _, rfl, rfl, rfl, rfl, ?_, ?_⟩
     · intro x hx; simp at hx
     · intro x hx
       simp only [List.mem_cons, List.mem_nil_iff, or_false] at hx
       subst hx
-      exact ⟨rfl, Or.inr ⟨rfl, by decide⟩⟩
+      exact ⟨rfl, Or.inr ⟨Or.inl rfl, by decide⟩⟩
 
 theorem adjDoc_class : DocA adjDoc := by
   refine ⟨rfl, by decide, adjDoc_lines, ?_, ?_⟩
   · intro x hx
     simp only [adjDoc, List.mem_singleton] at hx
     subst hx
-    exact ⟨⟨⟨10, 2⟩⟩, rfl, rfl, rfl, by norm_num [Amount.toRat, pow10]⟩
+    exact Or.inr ⟨Or.inl rfl, by decide⟩
   · intro x hx
     simp only [adjDoc, List.mem_singleton] at hx
     subst hx
-    exact ⟨⟨⟨2, 2⟩⟩, rfl, rfl, rfl, by norm_num [Amount.toRat, pow10]⟩
+    exact Or.inl ⟨⟨⟨2, 2⟩⟩, rfl, rfl, by norm_num [Amount.toRat, pow10], Or.inl rfl⟩
 
-/-- non-vacuity of (1): the class holds, weights 7 + 3 = 10 and 10·3 + 2 = 32; exact line totals
-26.680625 and 3.9164, exact sum 30.597025 (presented 30.60), exact total 28.149263 (presented 28.15) -/
-example : DocA adjDoc ∧ adjDoc.includes = none ∧ sumW adjDoc.lines = 10 ∧ totalW adjDoc = 32 ∧
+/-- non-vacuity of (1): the class holds, weights 5 + 3 = 8 and 8·3 + 2 = 26; exact line totals
+27.263125 and 3.9164, exact sum 31.179525 (presented 31.18), exact total 31.179525 − 0.50 + 0.6235905 =
+31.3031155 (presented 31.30) -/
+example : DocA adjDoc ∧ adjDoc.includes = none ∧ sumW adjDoc.lines = 8 ∧ totalW adjDoc = 26 ∧
     ((calculate exactOps adjDoc).toOption.bind (·.totals)).map (fun t => (t.sum, t.total)) =
-      some (⟨3060, 2⟩, ⟨2815, 2⟩) :=
+      some (⟨3118, 2⟩, ⟨3130, 2⟩) :=
   ⟨adjDoc_class, rfl, by decide, by decide, by decide⟩
 
 /-! ## the tax clause (precise rule, prices not including tax)
@@ -598,19 +602,21 @@ theorem adjDoc_tax_class : DocT adjDoc := by
   · intro x hx cb hcbm
     simp only [adjDoc, List.mem_singleton] at hx
     subst hx
-    simp at hcbm
+    simp only [List.mem_singleton] at hcbm
+    subst hcbm
+    exact hcb _ _ _ (by norm_num [Amount.toRat, pow10])
   · intro x hx cb hcbm
     simp only [adjDoc, List.mem_singleton] at hx
     subst hx
     simp at hcbm
 
-/-- non-vacuity of (2): two rate groups (21 % and 10.5 %), `taxW = 2 + 7 + 3 = 12`, `twtW = 44`;
-exact tax 26.680625 × 0.21 + 3.9164 × 0.105 = 6.01415325 (presented 6.01), exact total with tax
-28.149263 + 6.01415325 = 34.16341625 (presented 34.16) -/
+/-- non-vacuity of (2): two rate groups (21 % and 10.5 %), `taxW = 2 + (5 + 3) + (1 + 8) = 19`,
+`twtW = 26 + 19 = 45`; exact tax (27.263125 − 0.50) × 0.21 + 3.9164 × 0.105 = 6.03147825 (presented 6.03),
+exact total with tax 31.3031155 + 6.03147825 = 37.33459375 (presented 37.33) -/
 example : DocT adjDoc ∧
     ((calculate exactOps adjDoc).toOption.bind (·.totals)).map
       (fun t => (groupsT t, taxW adjDoc (groupsT t), twtW adjDoc (groupsT t), t.tax, t.totalWithTax)) =
-      some (2, 12, 44, ⟨601, 2⟩, ⟨3416, 2⟩) :=
+      some (2, 19, 45, ⟨603, 2⟩, ⟨3733, 2⟩) :=
   ⟨adjDoc_tax_class, by decide⟩
 
 /-! ## payable, advances, due
@@ -664,22 +670,24 @@ theorem payDoc_class : DocC payDoc := by
     subst ha
     exact Or.inl ⟨_, rfl, by norm_num [Amount.toRat, pow10]⟩
 
-/-- non-vacuity of (3): weights 44, 45 and 89; exact payable 34.16341625 − 0.02 = 34.14341625
-(presented 34.14), exact advance 30 % × 34.16341625 = 10.249024875 (presented 10.25), exact due
-23.894391375 (presented 23.89) -/
+/-- non-vacuity of (3): weights 45, 46 and 91; exact payable 37.33459375 − 0.02 = 37.31459375
+(presented 37.31), exact advance 30 % × 37.33459375 = 11.200378125 (presented 11.20), exact due
+26.114215625 (presented 26.11) -/
 example : DocC payDoc ∧
     ((calculate exactOps payDoc).toOption.bind (·.totals)).map
-      (fun t => (twtW payDoc (groupsT t), advW payDoc (groupsT t), dueW payDoc (groupsT t))) = some (44, 45, 89) ∧
+      (fun t => (twtW payDoc (groupsT t), advW payDoc (groupsT t), dueW payDoc (groupsT t))) = some (45, 46, 91) ∧
     ((calculate exactOps payDoc).toOption.bind (·.totals)).map (fun t => (t.payable, t.advances, t.due)) =
-      some (⟨3414, 2⟩, some ⟨1025, 2⟩, some ⟨2389, 2⟩) :=
+      some (⟨3731, 2⟩, some ⟨1120, 2⟩, some ⟨2611, 2⟩) :=
   ⟨payDoc_class, by decide, by decide⟩
 
 /-! ## the first clause as one theorem -/
 
 /-- **calc_eq_spec** — for every document of the class `DocC` (precise rule; prices not including
 tax; at least one line; lines priced in the document currency without breakdown whose discounts and
-charges are percentages ≤ 100 % of the line sum or fixed amounts with ≤ currency + 2 decimals;
-document discounts and charges percentages ≤ 100 % of the sum; ordinary tax combos; `totals.rounding`
+charges are percentages ≤ 100 % of the line sum or of an explicit base, or fixed amounts (bases and
+fixed amounts with ≤ currency + 2 decimals);
+document discounts and charges percentages ≤ 100 % of the sum or of an explicit base, or fixed
+amounts (bases and fixed amounts with ≤ currency + 2 decimals); ordinary tax combos; `totals.rounding`
 and fixed advances with ≤ currency + 2 decimals, percentage advances ≤ 100 %):
 
 every presented figure of `Calc.calculate exactOps d` is the half-away rounding at the currency's
@@ -791,16 +799,16 @@ theorem precise_error_lt_unit (d : Doc) (out : Out) (t : Totals) (hd : DocC d)
   exact hs y _ _ (Nat.le_refl _) (b9 y hy)
 
 /-- non-vacuity of `calc_eq_spec` / `precise_error_lt_unit`: `payDoc` is of the class and its largest
-weight is 89 < 100; the presented figures against the exact values 30.597025, 3.0597025, 0.6119405,
-28.149263, 6.01415325, 34.16341625, 34.14341625, 10.249024875, 23.894391375 -/
+weight is 91 < 100; the presented figures against the exact values 31.179525, 0.50, 0.6235905,
+31.3031155, 6.03147825, 37.33459375, 37.31459375, 11.200378125, 26.114215625 -/
 example : DocC payDoc ∧
-    ((calculate exactOps payDoc).toOption.bind (·.totals)).map (fun t => dueW payDoc (groupsT t)) = some 89 ∧
+    ((calculate exactOps payDoc).toOption.bind (·.totals)).map (fun t => dueW payDoc (groupsT t)) = some 91 ∧
     ((calculate exactOps payDoc).toOption.bind (·.totals)).map (fun t => (t.sum, t.discount, t.charge, t.total)) =
-      some (⟨3060, 2⟩, some ⟨306, 2⟩, some ⟨61, 2⟩, ⟨2815, 2⟩) ∧
+      some (⟨3118, 2⟩, some ⟨50, 2⟩, some ⟨62, 2⟩, ⟨3130, 2⟩) ∧
     ((calculate exactOps payDoc).toOption.bind (·.totals)).map (fun t => (t.tax, t.totalWithTax, t.payable)) =
-      some (⟨601, 2⟩, ⟨3416, 2⟩, ⟨3414, 2⟩) ∧
+      some (⟨603, 2⟩, ⟨3733, 2⟩, ⟨3731, 2⟩) ∧
     ((calculate exactOps payDoc).toOption.bind (·.totals)).map (fun t => (t.advances, t.due)) =
-      some (some ⟨1025, 2⟩, some ⟨2389, 2⟩) :=
+      some (some ⟨1120, 2⟩, some ⟨2611, 2⟩) :=
   ⟨payDoc_class, by decide, by decide, by decide, by decide⟩
 
 /-! ## pinned source shapes (regenerated facts; tools/pin_calc_expect.py) -/
